@@ -345,6 +345,11 @@ func check(c Case) (skip string, key string, msg string) {
 			if w.executed() != "" {
 				return "", "C16:" + c.Op + ":executed-outside-plugin-directory", w.executed()
 			}
+			if b, rerr := os.ReadFile(srcMarker); rerr == nil && len(b) > 0 {
+				// the name (taken from the file name) resolves outside <root>/<name>: rejected, and no process
+				// is started for it - not the source executable either
+				return "", "C16:" + c.Op + ":source-executed-for-rejected-name", fmt.Sprintf("Install of notation-%s was refused (%v), but the source executable had been run: %s", c.Name, err, strings.TrimSpace(string(b)))
+			}
 		} else {
 			if d := changedOutside(after); len(d) > 0 {
 				return "", "C16:" + c.Op + ":changed-outside-named-directory", fmt.Sprintf("Install of notation-%s: %v", c.Name, d)
